@@ -150,3 +150,29 @@ func HarnessC20RewindLong(auto int) {
 	vassert("C20.long.same", sameSeq(ref, got))
 	vreach("C20.long.end")
 }
+
+// HarnessC16Pool: after demuxing a stream that contains units failing to parse (truncated PES, broken section), the
+// process-wide buffer pool never hands the same buffer to two users at once
+func HarnessC16Pool() {
+	s := c08Stream()
+	// a PES whose PES_packet_length announces more than arrives before the next unit
+	bad := mkPESPattern(0x100, 10, true, 6)
+	bad.bytes[4], bad.bytes[5] = 0x01, 0x00
+	var pk [][]byte
+	pk = append(pk, s.pkts...)
+	pk = append(pk, packetize(bad, 9, 184, false)...)
+	tail := mkPESPattern(0x100, 4, true, 7)
+	pk = append(pk, packetize(tail, 10, 184, false)...)
+	var b []byte
+	for _, p := range pk {
+		b = append(b, p...)
+	}
+	_, ended := drainTolerant(b, 16)
+	vassert("C16.pool.drained", ended)
+	x := bytesPool.get(8)
+	y := bytesPool.get(8)
+	vassert("C16.pool.distinct", x != y)
+	bytesPool.put(x)
+	bytesPool.put(y)
+	vreach("C16.pool.end")
+}
